@@ -6,7 +6,8 @@ use crate::util::{guarded, Args, Out, Rng};
 use rsdd::builder::bdd::RobddBuilder;
 use rsdd::builder::cache::AllIteTable;
 use rsdd::builder::BottomUpBuilder;
-use rsdd::repr::{BddPtr, Cnf, DDNNFPtr, Literal, VarLabel, VarOrder};
+use rsdd::builder::bdd::BddBuilder;
+use rsdd::repr::{BddPtr, Cnf, DDNNFPtr, Literal, PartialModel, VarLabel, VarOrder};
 use serde_json::{json, Value};
 
 /// [0] = true, [1] = false, [compl, var, low_raw, high_raw] otherwise (unfolded: the diagrams are tiny)
@@ -48,7 +49,12 @@ pub fn record(args: &Args) {
             let v = rng.below(nv);
             let pol = rng.coin();
             // --mode c05: compilations only (their L1 conjunct is C05's statement); default: the operations of C01
-            let op = if c05 { "cnf" } else { *rng.pick(&["ite", "ite", "and", "or", "xor", "iff", "cond", "exists", "compose"]) };
+            let op = if c05 { "cnf" } else { *rng.pick(&["ite", "ite", "and", "or", "xor", "iff", "cond", "exists", "compose", "and_lst", "or_lst", "cond_model"]) };
+            let lst: Vec<BddPtr<'static>> = (0..rng.below(5)).map(|_| *rng.pick(&pool)).collect();
+            // a partial model: each variable unassigned / false / true
+            let pm_lits: Vec<Literal> = (0..nv).filter_map(|x| match rng.below(3) { 0 => None, k => Some(Literal::new(VarLabel::new_usize(x), k == 1)) }).collect();
+            let pm = PartialModel::from_litvec(&pm_lits, nv);
+            let pm_json: Vec<i64> = pm_lits.iter().map(|l| if l.polarity() { l.label().value_usize() as i64 + 1 } else { -(l.label().value_usize() as i64 + 1) }).collect();
             // compile_cnf: the STORED clauses (as Cnf::new normalised them) are logged, literals +-(v+1)
             let ncl = if rng.chance(1, 12) { 0 } else { rng.range(1, 5) };
             let clauses: Vec<Vec<Literal>> = (0..ncl)
@@ -69,6 +75,8 @@ pub fn record(args: &Args) {
                 "exists" => json!({"ev": "op", "op": op, "args": [sp(f)], "v": v}),
                 "compose" => json!({"ev": "op", "op": op, "args": [sp(f), sp(g)], "v": v}),
                 "cnf" => json!({"ev": "op", "op": op, "args": [], "cnf": stored}),
+                "and_lst" | "or_lst" => json!({"ev": "op", "op": op, "args": lst.iter().map(|p| sp(*p)).collect::<Vec<_>>()}),
+                "cond_model" => json!({"ev": "op", "op": op, "args": [sp(f)], "lits": pm_json}),
                 _ => json!({"ev": "op", "op": op, "args": [sp(f), sp(g)]}),
             };
             let lbl = VarLabel::new_usize(v);
@@ -81,6 +89,9 @@ pub fn record(args: &Args) {
                 "cond" => b.condition(f, lbl, pol),
                 "exists" => b.exists(f, lbl),
                 "cnf" => b.compile_cnf(&cnf),
+                "and_lst" => b.and_lst(&lst),
+                "or_lst" => b.or_lst(&lst),
+                "cond_model" => b.condition_model(f, &pm),
                 _ => b.compose(f, lbl, g),
             });
             match r {
